@@ -146,7 +146,10 @@ def gen(rng, k):
         if rng.random() < 0.5:      # rough candidates, inside the tolerance
             p["cand"] = [(a + rng.uniform(-1.5, 1.5, 2)).tolist(), (b + rng.uniform(-1.5, 1.5, 2)).tolist()]
     if kind == "clean":
-        p.update({"min_match": 3, "tolerance": 2.0, "min_delta": 0.0, "max_delta": float("inf"), "min_angle": float(np.pi / 10)})
+        # (min_points >= the number of points: the candidate vectors are all pairwise vectors.  With fewer, candidates come from the
+        # clusterer, and what the stand-in clusterer makes of 15 polar vectors says nothing about the code -- false alarm of soak 10)
+        p.update({"min_match": 3, "tolerance": 2.0, "min_delta": 0.0, "max_delta": float("inf"), "min_angle": float(np.pi / 10),
+                  "min_points": int(rng.choice([10, 100]))})
         if k % 2:
             # length limits that just contain the lattice vectors (both limits are inclusive in the statement)
             la, lb = float(np.linalg.norm(a)), float(np.linalg.norm(b))
